@@ -20,7 +20,11 @@ Record case := {
   (* payloads kept alive while other payloads are produced (the upstream queues jobs): A = cur.Clone(m,d).Bytes(),
      then D = diff.Bytes(), then Bytes() of a larger and of a smaller trie; only THEN A and D are decoded *)
   c_scaled_held : option kvs;
-  c_diff_held : option kvs
+  c_diff_held : option kvs;
+  (* session level (agent.ProfileSession with scripted spies, one per profile type): is the type cumulative, what the spy
+     reported in each upload window (window 0 first), and the Iterate output of every trie handed to the upstream for
+     that type, in upload order *)
+  c_sess : list (bool * list kvs * list kvs)
 }.
 
 (* ---- the specification side: plain per-key arithmetic on the inputs, no trie involved ------- *)
@@ -61,6 +65,37 @@ Definition m_scaled (m d : N) (t : ttnode) : option kvs :=
   | None => None
   end.
 
+(* per-stack sum of what was reported in a window *)
+Definition win_val (w : kvs) (k : bytes) : N := kv_get k w.
+Definition win_keys (ws : list kvs) : list bytes := flat_map (map fst) ws.
+
+(* cumulative type: the first window is not uploaded; upload i carries window (i+1) minus window i, clipped, where the
+   previous window is the one JUST before (also when it was empty); windows after the script (the one Stop closes) are empty.
+   other types: upload i carries window i. *)
+Fixpoint sess_cumul (universe : list bytes) (prev : kvs) (wins : list kvs) (jobs : list kvs) : bool :=
+  match jobs with
+  | [] => match wins with [] => true | _ => false end              (* a scripted window was never uploaded *)
+  | j :: jobs' =>
+      let (w, wins') := match wins with [] => ([], []) | w :: r => (w, r) end in
+      reports (filter (fun kv => nonempty (fst kv)) j) (fun k => win_val w k - win_val prev k) (filter nonempty universe)
+      && sess_cumul universe w wins' jobs'
+  end.
+Fixpoint sess_plain (universe : list bytes) (wins : list kvs) (jobs : list kvs) : bool :=
+  match jobs with
+  | [] => match wins with [] => true | _ => false end
+  | j :: jobs' =>
+      let (w, wins') := match wins with [] => ([], []) | w :: r => (w, r) end in
+      reports j (win_val w) universe && sess_plain universe wins' jobs'
+  end.
+Definition sess_ok (cumulative : bool) (wins : list kvs) (jobs : list kvs) : bool :=
+  let universe := win_keys wins in
+  if cumulative
+  then match wins with
+       | [] => sess_cumul universe [] [] jobs
+       | w0 :: r => sess_cumul universe w0 r jobs                    (* window 0 is the baseline only (skipUpload) *)
+       end
+  else sess_plain universe wins jobs.
+
 Definition check_case (c : case) : verdict :=
   let cur := c_cur c in let prev := c_prev c in
   let keys := (op_keys cur ++ op_keys prev ++ map fst (c_diff_iter c))%list in
@@ -98,6 +133,8 @@ Definition check_case (c : case) : verdict :=
           | None => false
           end)
          "Bytes(): the diff payload kept while later payloads were produced no longer decodes to the clipped differences";
+    spec (forallb (fun s => match s with (cumulative, wins, jobs) => sess_ok cumulative wins jobs end) (c_sess c))
+         "session: an upload of a cumulative type is not the window's counts minus the counts of the window just before (clipped), or a window was lost";
     (* --- model vs implementation --- *)
     corr (tt_eqb mcur (c_cur_dump c) && tt_eqb mprev (c_prev_dump c)) "tt_insert model differs from Trie.Insert (structure)";
     corr (kvs_eqb (tt_iterate mcur) (c_cur_iter c) && kvs_eqb (tt_iterate mprev) (c_prev_iter c))
